@@ -349,6 +349,8 @@ def remove_bn_inplace(lin: nn.Module, bn: nn.Module, fold: bool):
         raise AttributeError("BatchNorm folding requires track_running_stats = True")
     with torch.no_grad():
         lin.bn = copy.deepcopy(bn)
+        # the layer's forward/export must follow what is done to it here, whatever flag it was built with
+        lin.fold_bn = fold
         if fold:
             conv_w = lin.weight
             conv_b = lin.bias
